@@ -1114,6 +1114,14 @@ def bi_alloc_ordered(st, args, kw):
                                patterns=[z3.MultiPattern(z3.Select(s.arr, i), z3.Select(s.arr, j))]))
 
 
+def bi_str_suffix(st, args, kw):
+    return E.mk_bool(z3.SuffixOf(args[1].z, args[0].z))
+
+
+def bi_py_decode(st, args, kw):
+    return Val(T.STR, z3.Function('py_decode', z3.StringSort(), z3.StringSort())(args[0].z))
+
+
 def bi_mkseq(st, args, kw):
     a, n = args
     return Val(T.TSeq(a.t.args[1]), SeqV(a.z, n.z))
@@ -1171,7 +1179,7 @@ def bi_dict(st, args, kw):
 
 
 _BUILTINS = {
-    'mkseq': bi_mkseq, 'alloc_ordered': bi_alloc_ordered, 'py_join_seq': bi_py_join_seq, 'subseq': bi_subseq, 'py_int_ok': bi_py_int_ok, 'py_int_val': bi_py_int_val, 'substr': bi_substr, 'str_index': bi_str_index, 'py_lower': bi_py_lower, 'substr_after_last': bi_substr_after_last, 'pure_IO_encrypted_of': bi_pure_IO_encrypted_of, 'str_prefix': bi_str_prefix, 'nraised': bi_nraised, 'allocated': bi_allocated, 'ncalls': bi_ncalls, 'call_arg': bi_call_arg,
+    'mkseq': bi_mkseq, 'str_suffix': bi_str_suffix, 'py_decode': bi_py_decode, 'alloc_ordered': bi_alloc_ordered, 'py_join_seq': bi_py_join_seq, 'subseq': bi_subseq, 'py_int_ok': bi_py_int_ok, 'py_int_val': bi_py_int_val, 'substr': bi_substr, 'str_index': bi_str_index, 'py_lower': bi_py_lower, 'substr_after_last': bi_substr_after_last, 'pure_IO_encrypted_of': bi_pure_IO_encrypted_of, 'str_prefix': bi_str_prefix, 'nraised': bi_nraised, 'allocated': bi_allocated, 'ncalls': bi_ncalls, 'call_arg': bi_call_arg,
     'call_result': bi_call_result, 'trig': bi_trig, 'same': bi_same, 'is_list': bi_is_list, 'store': bi_store, 'dict_has': bi_dict_has,
     'dict_get': bi_dict_get, 'dict_keys': bi_dict_keys, 'dict': bi_dict, 'dict_index': bi_dict_index,
     'len': bi_len, 'set': bi_set, 'list': bi_list, 'tuple': bi_tuple, 'min': bi_min, 'max': bi_max,
